@@ -8,7 +8,7 @@ CHECKS = {
    note="Trusted: the snapshot readers (paginated ListMessages; read-only SQL dump for SQLite) and the virtual clock injection. Postgres backend not covered (no server in the sandbox).",
    technique="runtime monitoring: snapshot-diff transition monitor over generated operation histories (virtual clock), SQLite counter invariant hook, race detector on the concurrent part"),
  "C03": dict(level="exploration", ref="DESIGN.md §3 C03",
-   text="Held on the sampled schedules: 48 (quick) / 2400 (thorough) concurrent histories of 8-32 clients over direct Store calls, Pull HTTP and Worker gRPC on memory and SQLite, recorded at the client boundary and checked per message with porcupine against a lease-register model (exclusivity mode), built and run under the Go race detector.",
+   text="Held on the sampled schedules: 48 (quick) / 2400 (thorough) concurrent histories of 8-32 clients over direct Store calls, Pull HTTP and Worker gRPC on memory and SQLite, recorded at the client boundary and checked per message with porcupine against a lease-register model (exclusivity mode), built and run under the Go race detector. Also: a transport timing probe (lease_ttl, extend_by once and twice) and late settles of an expired lease racing a consumer on a second SQLite handle at the store's clock-read suspension points.",
    note="Schedules are sampled, not enumerated; evidence reports overlapping operation pairs and distinct per-message operation orders. Virtual clock frozen inside a phase. Postgres not covered.",
    technique="runtime monitoring: client-boundary history recording + porcupine linearizability check against a per-message lease register; Go race detector"),
  "C04": dict(level="exploration", ref="DESIGN.md §3 C04",
@@ -28,7 +28,7 @@ CHECKS = {
    note="Hop-by-hop / stack-managed headers excluded from the comparison; ~450 messages x 4 consumers per quick run.",
    technique="runtime monitoring: end-to-end byte/sha256 comparison through the production wiring with an independent header-rule oracle"),
  "C08": dict(level="exploration", ref="DESIGN.md §3 C08",
-   text="Held on every generated request: configurations with basic, hmac (inline and windowed secrets, custom headers, tolerance) and forward auth (mock service incl. hang, reset, closed port, redirect) run through the production wiring under a virtual clock; a valid request and single-field mutations of it are judged by an independent authenticator: queue changed => authentic; not authentic => 401/403/503 as stated and queue unchanged.",
+   text="Held on every generated request: configurations with basic, hmac (inline and windowed secrets, custom headers, tolerance) and forward auth (mock service incl. hang, reset, closed port, redirect) run through the production wiring under a virtual clock; a valid request and single-field mutations of it are judged by an independent authenticator: queue changed => authentic; not authentic => 401/403/503 as stated and queue unchanged. Also: secrets rotated behind unchanged references + reload, empty auth hmac blocks, and content comparison of already queued messages around every rejected request.",
    note="Soundness is the claim; completeness is a vacuity guard only. At exactly |now-ts| = tolerance either answer is accepted.",
    technique="runtime monitoring: reference-model monitor (independent authenticator) + snapshot-unchanged-on-rejection over generated and mutated requests"),
  "C09": dict(level="exploration", ref="DESIGN.md §3 C09",
@@ -74,7 +74,7 @@ CHECKS.update({
    note="The resolver answer is the one the policy check saw; later re-resolution by the dialer is outside the statement.",
    technique="runtime monitoring: hooked transport/resolver + independent policy evaluator over generated URLs and redirect chains"),
  "C17": dict(level="exploration", ref="DESIGN.md §3 C17",
-   text="Held on every case: generated secret-version sets and selection modes compiled by config.Compile; the real HTTPDeliverer (injected Now on window boundaries) posts to a local server and the signature is recomputed over the request as received with the independently selected version; no valid/loadable version => zero requests; inbound verification through the production loadAuth wiring accepts exactly the secrets valid at the signed timestamp.",
+   text="Held on every case: generated secret-version sets and selection modes compiled by config.Compile; the real HTTPDeliverer (injected Now on window boundaries) posts to a local server and the signature is recomputed over the request as received with the independently selected version; no valid/loadable version => zero requests; inbound verification through the production loadAuth wiring accepts exactly the secrets valid at the signed timestamp. Also: long-lived deliverers across all boundary instants, and every request of a redirected delivery judged by its own method, path and body.",
    note="valid_from ties broken by smallest id (the order secrets.Set documents).",
    technique="runtime monitoring: receiver-side recomputation + independent version selection over generated rotation windows"),
  "C19": dict(level="exploration", ref="DESIGN.md §3 C19",
